@@ -1,8 +1,8 @@
 SPECIFICATION Spec
 CONSTANTS
-  NT = 2
-  MaxId = 4
-  MaxAcl = 1
+  NT = 1
+  MaxId = 3
+  MaxAcl = 0
   MaxFaults = 1
   FIX_NamedResult = TRUE
   FIX_AclWriteFirst = TRUE
